@@ -280,8 +280,8 @@ SUBCHECKS = [
         clause="the five shape functions equal their closed forms for every exponent and hit both end points"),
     Sub("shape_exact", "hyp", shape_exact_body, strategy=shape_exact_case, quick=600, thorough=12000,
         clause="same, exact rational arithmetic with integer exponents"),
-    Sub("fixed", "hyp", fixed_body, strategy=fixed_case, quick=3000, thorough=60000,
+    Sub("fixed", "hyp", gens.with_window_candidates(fixed_body), strategy=fixed_case, quick=3000, thorough=60000,
         clause="fixed-window strategies: border value and per-sample shape as documented"),
-    Sub("adaptive", "hyp", adaptive_body, strategy=adaptive_case, quick=3000, thorough=60000,
+    Sub("adaptive", "hyp", gens.with_window_candidates(adaptive_body), strategy=adaptive_case, quick=3000, thorough=60000,
         clause="adaptive strategies: window split by the jump ratio, values as documented"),
 ]
